@@ -535,17 +535,25 @@ class Planner:
             return self.ref(out)
         return None
 
-    def measure(self, M, kinds=("dx", "dx", "dx", "ds", "dS")):
+    def measure(self, M, kinds=("dx", "dx", "dx", "ds", "dS"), like=None):
         r = self.rng
         kind = r.choice(kinds)
         kw = {"domain": self.ref(M["slot"])}
         sid = r.choice(["everywhere", "everywhere", 1, 2, ["t", 1, 2], "otherwise"])
+        if like is not None:
+            # same integral type and subdomain as an earlier integral, other metadata
+            kind, sid = like
+        self.last_measure = (kind, sid)
         if sid != "everywhere":
             kw["subdomain_id"] = sid
         md = self.metadata()
+        if like is not None and md is None and r.random() < 0.8:
+            out = self.new()
+            if self.emit(["lit", out, {"quadrature_degree": r.choice([1, 2, 3, 4, 5])}], kind="dict"):
+                md = self.ref(out)
         if md is not None:
             kw["metadata"] = md
-        if md is None and r.random() < 0.35:
+        if md is None and r.random() < self.cfg.get("global_measure_p", 0.35):
             # the module-level measure (ufl.dx / ds / dS): dx(domain, ...) hands the global
             # measure's own metadata dict on to every form built with it
             out = self.new()
@@ -597,10 +605,12 @@ class Planner:
     def form(self, M, rank, depth=3, nint=None):
         r = self.rng
         f = None
+        last = None
         for _ in range(nint or r.randint(1, 3)):
-            kind, m = self.measure(M)
+            kind, m = self.measure(M, like=last if last is not None and r.random() < 0.35 else None)
             if m is None:
                 continue
+            last = self.last_measure
             s = self.integrand(M, rank, depth, kind)
             if s is None:
                 continue
@@ -656,7 +666,12 @@ class Planner:
         r = self.rng
         kw = {}
         mode = r.random()
-        if mode < 0.35:
+        if mode < 0.12:
+            # option set of a form compiler that estimates degrees itself
+            kw = {"do_apply_function_pullbacks": True, "do_apply_integral_scaling": True, "do_apply_geometry_lowering": True, "do_estimate_degrees": False}
+            if r.random() < 0.5:
+                kw["preserve_geometry_types"] = ["t", ["fn", "ufl.classes.CellVolume"], ["fn", "ufl.classes.FacetArea"]]
+        elif mode < 0.35:
             kw = {"do_apply_function_pullbacks": True, "do_apply_integral_scaling": True, "do_apply_geometry_lowering": True}
             if r.random() < 0.5:
                 kw["preserve_geometry_types"] = ["t", ["fn", "ufl.classes.Jacobian"]]
